@@ -22,6 +22,8 @@ type SpecFunc struct {
 	Ret       string
 	Body      *SExpr // nil => uninterpreted
 	Rec       bool
+	MaxUnfold int // own unfolding budget (rec N)
+	Hidden    bool // recursive definition is only unfolded in obligations that `reveal` it
 	Decreases *SExpr
 	Opaque    bool
 	Src       string
@@ -36,6 +38,7 @@ type Lemma struct {
 	Induction string    // name of int parameter to induct on (>= base)
 	Base      *SExpr    // base value expression (default 0)
 	Uses      []*SExpr  // lemma applications available in the proof
+	Reveal    []string  // hidden spec functions whose definitions this proof may unfold
 	Haves     []*Clause // intermediate assertions: proved first (in order), then assumed
 	Unfold    int       // unfolding depth for recursive functions
 	Axiom     bool      // trusted, not proved
@@ -48,6 +51,7 @@ type LoopSpec struct {
 	Invariants []*Clause
 	Decreases  *SExpr
 	Uses       []*SExpr
+	BeginUses  []*SExpr // lemma instances assumed at the start of the loop body
 	Unfold     int
 }
 
@@ -79,6 +83,9 @@ type FuncContract struct {
 	TrustWhy string
 	Arith    string
 	Props    []string
+	ProtoTargets []string // per ProtoUses entry: "ret2", "call8" or "" (all protocol obligations)
+	ProtoUses []*SExpr // lemma instances for the iteration-protocol obligations; $j names the arbitrary index
+	RetHaves []*Clause // proved at every return site (in order), then assumed for the ensures clauses
 	RetUses  []*SExpr
 	EntryUses []*SExpr
 	Unfold   int
@@ -88,6 +95,7 @@ type FuncContract struct {
 	Src      string
 	NoSafety bool
 	RetLets  map[int]map[string]*SExpr
+	Reveal   []string
 	Modifies []string // heap fields ("Type.field") that may change on pre-existing objects
 	Dead     []string // cover obligations expected to be unreachable under the precondition (suffix match)
 	Free     []string // parameters exempt from the exact-mode domain assumption (may hold +-Inf)
@@ -104,7 +112,7 @@ var directiveKW = map[string]bool{
 	"spec": true, "lemma": true, "axiom": true, "func": true, "requires": true, "ensures": true,
 	"loop": true, "call": true, "assigns": true, "pure": true, "trusted": true, "arith": true,
 	"decreases": true, "induction": true, "use": true, "props": true, "ret": true, "entry": true,
-	"unfold": true, "iter": true, "ghost": true, "opaque": true, "nosafety": true, "have": true, "free": true, "dead": true, "modifies": true,
+	"unfold": true, "iter": true, "ghost": true, "opaque": true, "nosafety": true, "have": true, "free": true, "dead": true, "modifies": true, "reveal": true, "proto": true,
 }
 
 // collectAnnotations returns the //@ lines of a file, with positions.
@@ -229,9 +237,15 @@ func (cs *Contracts) parseFile(pkg string, lines []string, where string) {
 				case "rec":
 					p.next()
 					sf.Rec = true
+					if p.peek().k == "num" {
+						sf.MaxUnfold, _ = strconv.Atoi(p.next().s)
+					}
 				case "opaque":
 					p.next()
 					sf.Opaque = true
+				case "hidden":
+					p.next()
+					sf.Hidden = true
 				default:
 					panic(w + ": unexpected " + p.peek().s)
 				}
@@ -312,6 +326,26 @@ func (cs *Contracts) parseFile(pkg string, lines []string, where string) {
 				panic(w + ": have only in lemmas")
 			}
 			curL.Haves = append(curL.Haves, parseClause(it.text, w))
+		case "proto":
+			rest := strings.TrimSpace(it.text)
+			target := ""
+			if !strings.HasPrefix(rest, "use") {
+				f := strings.SplitN(rest, " ", 2)
+				target = f[0]
+				if len(f) < 2 || !strings.HasPrefix(strings.TrimSpace(f[1]), "use") {
+					panic(w + ": expected 'proto [target] use'")
+				}
+				rest = strings.TrimSpace(f[1])
+			}
+			curF.ProtoTargets = append(curF.ProtoTargets, target)
+			curF.ProtoUses = append(curF.ProtoUses, parseExprText(strings.TrimPrefix(rest, "use"), w))
+		case "reveal":
+			names := strings.FieldsFunc(it.text, func(r rune) bool { return r == ',' || r == ' ' })
+			if curL != nil {
+				curL.Reveal = append(curL.Reveal, names...)
+			} else if curF != nil {
+				curF.Reveal = append(curF.Reveal, names...)
+			}
 		case "modifies":
 			for _, a := range strings.FieldsFunc(it.text, func(r rune) bool { return r == ',' || r == ' ' }) {
 				curF.Modifies = append(curF.Modifies, a)
@@ -350,6 +384,10 @@ func (cs *Contracts) parseFile(pkg string, lines []string, where string) {
 			curF.Ghosts = append(curF.Ghosts, SParam{name, typ})
 		case "ret", "entry":
 			rest := strings.TrimSpace(it.text)
+			if it.kw == "ret" && strings.HasPrefix(rest, "have ") {
+				curF.RetHaves = append(curF.RetHaves, parseClause(strings.TrimPrefix(rest, "have "), w))
+				break
+			}
 			if f := strings.Fields(rest); it.kw == "ret" && len(f) > 2 && f[1] == "let" {
 				// ret N let $a = e ; $b = e
 				n, err := strconv.Atoi(f[0])
@@ -404,6 +442,8 @@ func (cs *Contracts) parseFile(pkg string, lines []string, where string) {
 				ls.Decreases = parseExprText(f[2], w)
 			case "use":
 				ls.Uses = append(ls.Uses, parseExprText(f[2], w))
+			case "begin":
+				ls.BeginUses = append(ls.BeginUses, parseExprText(strings.TrimPrefix(strings.TrimSpace(f[2]), "use"), w))
 			case "unfold":
 				ls.Unfold, _ = strconv.Atoi(strings.TrimSpace(f[2]))
 			default:
